@@ -50,6 +50,8 @@ fn parse_cfg(args: &[String]) -> rt::Config {
         c.model = match v.as_str() {
             "m1" => rt::Model::M1,
             "m2" => rt::Model::M2,
+            "m3" => rt::Model::M3,
+            "m3l" => rt::Model::M3L,
             "sc" => rt::Model::Sc,
             x => panic!("unknown model {}", x),
         };
@@ -73,6 +75,8 @@ fn parse_cfg_string(s: &str) -> rt::Config {
                 c.model = match v {
                     "M1" => rt::Model::M1,
                     "M2" => rt::Model::M2,
+                    "M3" => rt::Model::M3,
+                    "M3L" => rt::Model::M3L,
                     _ => rt::Model::Sc,
                 }
             }
